@@ -30,13 +30,14 @@ def make_scripted(history):
             super().__init__(log_level=LV, print_level=LV)
             self.history = history
             self.pointer = 0
+            self.limit = len(history)     # the run stops (all errors 0) when the pointer reaches the limit; raised for a continuation
             self._table = None
             self._table_for = None
 
         def table(self):
             if self._table_for != self.pointer:
                 t = {}
-                if self.pointer < len(self.history):
+                if self.pointer < min(len(self.history), self.limit):
                     for e in self.history[self.pointer]:
                         t[(int(e[0]), float(e[1]), float(e[2]))] = float(e[3]) if len(e) > 3 else 1.0
                 self._table, self._table_for = t, self.pointer
@@ -125,7 +126,7 @@ class Run:
 
 
 def build(config, history, comps, out_len, estimator=None, grid=None, operation=None, tol=0.5, perform=True,
-          vectorized=None, perform_kwargs=None, sa_kwargs=None, observer=None):
+          vectorized=None, perform_kwargs=None, sa_kwargs=None, observer=None, resume=None):
     """Construct fresh real objects for `config`, run the real adaptive loop along `history`.
     comps: callable x -> list of out_len floats (component 0 conventionally 'drives', with the scripted
     estimator it is irrelevant).  Returns a Run with sa, op, eo, snaps [(before, after)], result."""
@@ -169,8 +170,18 @@ def build(config, history, comps, out_len, estimator=None, grid=None, operation=
             return out
         sa.evaluate_operation = eval_wrapper
     if perform:
+        if resume is not None:      # (k, how): stop after k scripted steps, then continue ("continue" / "container")
+            eo.limit = min(resume[0], len(history))
         r.result = sa.performSpatiallyAdaptiv(config["lmin"], config["lmax"], eo, tol=tol, print_output=False,
                                               **(perform_kwargs or {}))
+        if resume is not None:
+            eo.limit = len(history)
+            eo._table_for = None
+            if resume[1] == "continue":
+                r.result = sa.continue_adaptive_refinement(tol=tol)
+            else:
+                r.result = sa.performSpatiallyAdaptiv(config["lmin"], config["lmax"], eo, tol=tol, print_output=False,
+                                                      refinement_container=r.result[0], **(perform_kwargs or {}))
         if hasattr(eo, "pointer") and eo.pointer != len(history):
             from mc.core import HarnessError
             raise HarnessError("adaptive loop executed %d of %d scripted steps" % (eo.pointer, len(history)))
